@@ -380,3 +380,12 @@ Theorem C13_gen_sampler_get :
     sampler_get_examples v = Some (PL (cols_of v), tt) /\
     run draw mask rperm rint tvec tmulti (Sampler g) k = Some (true, (FL, cols_of v)).
 Proof. exact gen_sampler_get_eq. Qed.
+
+(* the infix operators build exactly the combinator of their operands (and, taking no sampling oracle, call no
+   method of the operands: construction draws nothing) *)
+Theorem C13_gen_operators :
+  forall a b : gen,
+    base_add a b = Some (Concat [a; b], tt) /\
+    base_mul a b = Some (Ensemble [a; b], tt) /\
+    base_xor a b = Some (Mesh [a; b], tt).
+Proof. exact gen_operators_eq. Qed.
